@@ -226,3 +226,58 @@ M('C20', 'format parses the unit unchecked', 'SI.py', "        v = self / type(s
 M('C20', 'benign: reorder decorators', 'SI.py', "    @register(numpy.add)\n    @register(numpy.hypot)", "    @register(numpy.hypot)\n    @register(numpy.add)", expect='silent')
 M('C20', 'benign: guard written with ==', 'SI.py', "        (dim0, arg0), (dim2, arg2) = Quantity.__unpack(args[0], args[2])\n        if dim0 != dim2:", "        (dim0, arg0), (dim2, arg2) = Quantity.__unpack(args[0], args[2])\n        if dim2 != dim0:", expect='silent')
 M('C20', 'benign: result written as dim0 * dim1**-1', 'SI.py', "        return (dim0 / dim1).wrap(op(arg0, arg1, *args[2:], **kwargs))", "        return (dim0 * dim1**-1).wrap(op(arg0, arg1, *args[2:], **kwargs))", expect='silent')
+
+# ---------------------------------------------------------------- C16
+M('C16', 'counter store moved out of the lock', 'parallel.py',
+  "            if iiter >= self._stop:\n                raise StopIteration\n            self._index.value = iiter + 1\n        return iiter",
+  "            if iiter >= self._stop:\n                raise StopIteration\n        self._index.value = iiter + 1\n        return iiter", rule='R16.1')
+M('C16', 'counter read before taking the lock', 'parallel.py',
+  "        with self._lock:\n            iiter = self._index.value  # claim next value\n", "        iiter = self._index.value  # claim next value\n        with self._lock:\n", rule='R16.1')
+M('C16', 'off-by-one in the exhaustion test', 'parallel.py', "            if iiter >= self._stop:", "            if iiter > self._stop:", rule='R16.1')
+M('C16', 'range created inside the fork', 'parallel.py',
+  "    rng = range(nitems)  # shared range, must be created pre-fork\n    with fork(nitems), treelog.iter.wrap(_pct(name, nitems), rng) as wrprng:\n        yield wrprng",
+  "    with fork(nitems):\n        rng = range(nitems)\n        with treelog.iter.wrap(_pct(name, nitems), rng) as wrprng:\n            yield wrprng", rule='R16.1')
+M('C16', 'child returns instead of exiting on success', 'parallel.py', "        if amchild:  # pragma: no cover\n            os._exit(0)  # communicate success to main process\n", "        if amchild:  # pragma: no cover\n            return\n", rule='R16.2')  # the failsafe then exits 1: a successful parallel run raises
+M('C16', 'failsafe exit removed and child falls through', 'parallel.py',
+  "        if amchild:  # pragma: no cover\n            os._exit(0)  # communicate success to main process\n", "", rule='R16.2')
+M('C16', 'child can escape: no success exit and no failsafe', 'parallel.py',
+  "    finally:\n        if amchild:  # pragma: no cover\n            os._exit(1)  # failsafe\n", "    finally:\n        pass\n", expect='silent')  # success and failure branches still exit explicitly
+M('C16', 'failing child exits 0', 'parallel.py', "                os._exit(1)  # communicate failure to main process", "                os._exit(0)  # communicate failure to main process", rule='R16.2')
+M('C16', 'child exits are all removed from the handler', 'parallel.py',
+  "            try:\n                print('[parallel.fork] exception in child process:', e)\n            finally:\n                os._exit(1)  # communicate failure to main process\n",
+  "            print('[parallel.fork] exception in child process:', e)\n", expect='silent')  # child then kills nothing (child_pids empty for it?) - it re-raises and the finally failsafe exits 1
+M('C16', 'parent does not kill children on failure', 'parallel.py', "        for pid in child_pids:  # kill all child processes\n            os.kill(pid, signal.SIGKILL)\n        raise", "        raise", rule='R16.2')
+M('C16', 'parent swallows the failure', 'parallel.py', "        for pid in child_pids:  # kill all child processes\n            os.kill(pid, signal.SIGKILL)\n        raise",
+  "        for pid in child_pids:  # kill all child processes\n            os.kill(pid, signal.SIGKILL)", rule='R16.2')
+M('C16', 'parent does not wait', 'parallel.py',
+  "        with treelog.context('waiting for child processes'):\n            nfails = sum(not _wait(pid) for pid in child_pids)\n        if nfails:  # failure in child process: raise exception\n            raise Exception('fork failed in {} out of {} processes'.format(nfails, nprocs))\n",
+  "        pass\n", rule='R16.2')
+M('C16', 'failed children only logged', 'parallel.py',
+  "        if nfails:  # failure in child process: raise exception\n            raise Exception('fork failed in {} out of {} processes'.format(nfails, nprocs))\n",
+  "        if nfails:  # failure in child process\n            treelog.error('fork failed in {} out of {} processes'.format(nfails, nprocs))\n", rule='R16.2')
+M('C16', '_wait True for signalled children', 'parallel.py', "    elif os.WIFSIGNALED(status):\n        s = os.WTERMSIG(status)\n        msg =", "    elif os.WIFSIGNALED(status):\n        return True\n        s = os.WTERMSIG(status)\n        msg =", rule='R16.2')
+M('C16', '_wait ignores the exit status', 'parallel.py', "        s = os.WEXITSTATUS(status)\n        if not s:\n            return True", "        s = os.WEXITSTATUS(status)\n        return True", rule='R16.2')
+M('C16', 'pid not recorded', 'parallel.py', "            child_pids.append(pid)\n", "", rule='R16.2')
+M('C16', 'exec appends to the raw block', 'evaluable.py', "        self._block_for(expression).append(_pyast.Exec(expression))", "        self._block.append(_pyast.Exec(expression))", rule='R16.3')
+M('C16', 'assign_to ignores the sliced lhs', 'evaluable.py', "            block = self._block_for(lhs, rhs)", "            block = self._block_for(rhs)", rule='R16.3')
+M('C16', 'raise_ appends to the raw block', 'evaluable.py', "        self._block_for(exception).append(_pyast.Raise(exception))", "        self._block.append(_pyast.Raise(exception))", rule='R16.3')
+M('C16', 'if_ does not pre-evaluate a locked condition', 'evaluable.py',
+  "        if self._needs_lock(condition):\n", "        if False and self._needs_lock(condition):\n", rule='R16.3')
+M('C16', '_iter_locks ignores keyword arguments', 'evaluable.py', "for args_ in (args, kwargs.values()) for arg in args_ for var in arg.variables", "for args_ in (args,) for arg in args_ for var in arg.variables", rule='R16.3')
+M('C16', 'array_add_at bypasses exec', 'evaluable.py', "        self.exec(_pyast.Variable('numpy').get_attr('add').get_attr('at').call(out, indices, values))",
+  "        self._block.append(_pyast.Exec(_pyast.Variable('numpy').get_attr('add').get_attr('at').call(out, indices, values)))", rule='R16.3')
+M('C16', 'shared array not registered', 'evaluable.py', "            self._shared_arrays[out] = lock\n", "", rule='R16.4')
+M('C16', 'lock created inside the allocation block', 'evaluable.py', "            self._blocks[0,].append(_pyast.Assign(lock,", "            self._blocks[alloc_block_id].append(_pyast.Assign(lock,", rule='R16.4')
+M('C16', 'shared branch allocates privately', 'evaluable.py', "            py_alloc = _pyast.Variable('parallel').get_attr('shempty')", "            py_alloc = _pyast.Variable('numpy').get_attr('empty')", rule='R16.4')
+M('C16', 'ctxrange for every loop depth', 'evaluable.py', "        if len(loop_id) == 1 and compile_parallel:", "        if compile_parallel:", rule='R16.4')
+M('C16', 'ielems allocated privately in _locate', 'topology.py', "        ielems = parallel.shempty(len(coords), dtype=int)", "        ielems = numpy.empty(len(coords), dtype=int)", rule='R16.5')
+M('C16', 'missing point leaves its slot unassigned', 'topology.py', "                    ielems[ipoint] = -1 # mark point as missing\n                    if not skip_missing:", "                    if not skip_missing:", rule='R16.5')
+M('C16', 'compile emits an unlocked statement directly', 'evaluable.py', "        alloc_block.assign_to(out, py_alloc.call(shape, dtype=array.ast_dtype))",
+  "        self._blocks[alloc_block_id].append(_pyast.Exec(py_alloc.call(shape, dtype=array.ast_dtype)))\n        alloc_block.assign_to(out, py_alloc.call(shape, dtype=array.ast_dtype))", rule='R16.3')
+M('C16', 'benign: rename lock variable', 'evaluable.py',
+  "        for lock in self._iter_locks(*args, **kwargs):\n            with_block = _pyast.Block()\n            block.append(_pyast.With(lock, with_block))",
+  "        for lock in self._iter_locks(*args, **kwargs):\n            with_block = _pyast.Block()\n            block.append(_pyast.With(lock, body=with_block))", expect='silent')
+M('C16', 'benign: reorder independent statements in shared branch', 'evaluable.py',
+  "            lock = self.get_lock_for_evaluable(array)\n            self._shared_arrays[out] = lock\n            self._blocks[0,].append(_pyast.Assign(lock, _pyast.Variable('multiprocessing').get_attr('Lock').call()))\n            py_alloc = _pyast.Variable('parallel').get_attr('shempty')",
+  "            lock = self.get_lock_for_evaluable(array)\n            py_alloc = _pyast.Variable('parallel').get_attr('shempty')\n            self._blocks[0,].append(_pyast.Assign(lock, _pyast.Variable('multiprocessing').get_attr('Lock').call()))\n            self._shared_arrays[out] = lock", expect='silent')
+M('C16', 'benign: exhaustion test mirrored', 'parallel.py', "            if iiter >= self._stop:", "            if self._stop <= iiter:", expect='silent')
